@@ -1322,7 +1322,7 @@ theorem applyKw_readonly {s : St} (hwf : WF s) (c : CId) (kw : List (Name × Obj
 
 theorem guardedStore_forbidden {s : St} {i : IId} {x : Inst} {n : Name} {ip : PId} {v : Obj} {q : Param}
     (hq : s.heap[ip]? = some q) (hval : rejects s q v = false)
-    (h : q.readonly = true ∨ (q.constant = true ∧ v ≠ guardOld x n q)) :
+    (h : q.readonly = true ∨ (q.constant = true ∧ v ≠ guardOld s x n q)) :
     guardedStore s i x n ip v = (s, .typeError) := by
   unfold guardedStore
   simp only [hq, hval, Bool.false_eq_true, if_false]
